@@ -753,3 +753,76 @@ func GenC17Script(t *rapid.T, thorough bool) *Script {
 	}
 	return s
 }
+
+func GenC20Script(t *rapid.T, thorough bool) *Script {
+	o := mixedOpts(thorough)
+	o.MIG, o.Terminating, o.TightPods = false, false, false
+	o.Hierarchy = 3
+	s := &Script{Prop: "C20", Profile: "status-controllers", C20: &C20Script{}}
+	s.MapSeed = rapid.Uint64Range(1, 1<<62).Draw(t, "mapseed")
+	c := s.C20
+	c.World.Nodes = genNodes(t, o)
+	for i := range c.World.Nodes {
+		if c.World.Nodes[i].GPUs > 0 && c.World.Nodes[i].GPUMemMi == 0 {
+			c.World.Nodes[i].GPUMemMi = 16000
+		}
+	}
+	var leaves []string
+	c.World.Queues, leaves = genQueues(t, o)
+	c.World.PriorityClasses = []PriorityClassSpec{{"train", 50}, {"build", 100}, {"inference", 125}, {"low", 25}}
+	c.World.Workloads = genWorkloads(t, o, leaves, c.World.Nodes, c.World.PriorityClasses)
+	for wi := range c.World.Workloads {
+		for pi := range c.World.Workloads[wi].Pods {
+			p := &c.World.Workloads[wi].Pods[pi]
+			if p.GPUMemMi > 0 { // keep to fractions: memory requests depend on per-node rounding rules
+				p.GPUMemMi, p.Fraction = 0, "0.5"
+			}
+		}
+	}
+	placeInitial(t, o, &c.World)
+	var pods, pgs, qs []string
+	for _, w := range c.World.Workloads {
+		pgs = append(pgs, w.Name)
+		for _, p := range w.Pods {
+			pods = append(pods, p.Name)
+		}
+	}
+	for _, q := range c.World.Queues {
+		qs = append(qs, q.Name)
+	}
+	n := rapid.IntRange(2, 14).Draw(t, "nsteps")
+	for i := 0; i < n; i++ {
+		st := C20Step{}
+		switch pick(t, "c20kind", "pod_phase", "pod_phase", "pod_scheduled", "pod_delete", "pg_preemptibility", "pg_preemptibility", "pg_priority", "pg_queue", "queue_parent", "drain", "drain", "fail", "restart") {
+		case "pod_phase":
+			st = C20Step{Kind: "pod_phase", Arg: pick(t, "pod", pods...), Val: pick(t, "phase", "Pending", "Running", "Succeeded", "Failed")}
+		case "pod_scheduled":
+			st = C20Step{Kind: "pod_scheduled", Arg: pick(t, "pod", pods...), Val: pick(t, "cond", "True", "False")}
+		case "pod_delete":
+			st = C20Step{Kind: "pod_delete", Arg: pick(t, "pod", pods...)}
+		case "pg_preemptibility":
+			st = C20Step{Kind: "pg_preemptibility", Arg: pick(t, "pg", pgs...), Val: pick(t, "pre", "preemptible", "non-preemptible", "")}
+		case "pg_priority":
+			st = C20Step{Kind: "pg_priority", Arg: pick(t, "pg", pgs...), Val: pick(t, "pc", "train", "build", "inference", "low", "missing")}
+		case "pg_queue":
+			st = C20Step{Kind: "pg_queue", Arg: pick(t, "pg", pgs...), Val: pick(t, "q", leaves...)}
+		case "queue_parent":
+			st = C20Step{Kind: "queue_parent", Arg: pick(t, "q", qs...), Val: pick(t, "parent", append([]string{""}, qs...)...)}
+		case "drain":
+			st = C20Step{Kind: "drain", N: rapid.IntRange(1, 12).Draw(t, "drainn")}
+			for j := 0; j < st.N; j++ {
+				st.Tape = append(st.Tape, rapid.IntRange(0, 7).Draw(t, "dtape"))
+			}
+		case "fail":
+			st = C20Step{Kind: "fail", N: rapid.IntRange(1, 4).Draw(t, "failn")}
+		case "restart":
+			st = C20Step{Kind: "restart"}
+		}
+		c.Steps = append(c.Steps, st)
+	}
+	nt := rapid.IntRange(0, 40).Draw(t, "tapelen")
+	for j := 0; j < nt; j++ {
+		c.Tape = append(c.Tape, rapid.IntRange(0, 7).Draw(t, "tape"))
+	}
+	return s
+}
